@@ -110,5 +110,11 @@ CLAIMS['C11'] = {
   'note': _TB + 'The layout (six numeric scalars with short and long names, three arrays of rank 1 and 2) is a concrete scenario; string variables and string space are not covered (C10). One defect found and fixed (PEEK into arrays after the first).',
 }
 
+CLAIMS['C40'] = {
+  'text': 'Proof of the second clause only: state.load_session returns only if all 24 header bytes equal pack(HEADER_FORMAT, crc32(blob), format version, Python version, PC-BASIC version) for an arbitrary symbolic header and an arbitrary checksum value; '
+          'otherwise it raises ValueError and nothing is unpickled. The first clause (resume equals uninterrupted run) is not claimed.',
+  'note': _TB + 'open/zlib/pickle are stand-ins; that CRC-32 changes under every single-byte alteration of the blob is the standard property of CRC-32 and is assumed. One defect found and fixed (format_version was never compared).',
+}
+
 NOT_APPLICABLE = {
 }
